@@ -531,3 +531,15 @@ fn test_reflexitivity() {
     }));
     parse(&data).unwrap();
 }
+
+/// Verification hooks (built only with `--cfg erbium_verif`): read and build
+/// the otherwise opaque option list.
+#[cfg(erbium_verif)]
+impl NDOptions {
+    pub fn verif_values(&self) -> &[NDOptionValue] {
+        &self.0
+    }
+    pub fn verif_from(v: Vec<NDOptionValue>) -> Self {
+        NDOptions(v)
+    }
+}
